@@ -197,6 +197,53 @@ def _residue_run(arg):
     return {"label": spec["label"], "spec": spec, "c12": evs, "san": san, "stats": {"pairs": len(evs)}}
 
 
+def _hist_run(spec):
+    """the same dialogue three times, differing only in the CONTENT of an ignorable long reply that precedes the probes"""
+    seqs = []
+    san = None
+    for v in range(3):
+        sp = dict(spec, plan=[dict(p, variant=v) for p in spec["plan"]], dump_clients=True)
+        r = mitm.execute(sp)
+        steps = [(s["tag"] or {}).get("kind", "real") for s in r["steps"]]
+        seqs.append([((s["tag"] or {}).get("kind", "real"), s["data"].hex() if (s["tag"] or {}).get("kind") != "histfill" else "fill",
+                      s["outs"]) for s in r["steps"]] + [("exits", "", r["exits"])])
+        san = san or r["san"]
+    evs = []
+    n = min(len(x) for x in seqs)
+    for i in range(n):
+        a = seqs[0][i]
+        eq = all(x[i] == a for x in seqs[1:])
+        ev = {"e": "Pair", "i": i, "equal": eq, "len": len(a[1]) // 2 if a[1] != "fill" else 0, "hex": a[1][:160], "victim": True}
+        if not eq:
+            ev["outs"] = [json.dumps(x[i])[:600] for x in seqs]
+        evs.append(ev)
+        if not eq:
+            break
+    return {"label": spec["label"], "spec": spec, "c12": evs, "san": san, "stats": {"pairs": len(evs)}}
+
+
+def history_family(chk, tier, seed):
+    """C12, client side, the buffers BEHIND the receive buffer: what the client makes of a reply must not depend on the
+    content of earlier, longer replies either (its decode buffers are re-used from reply to reply)."""
+    sp = []
+    k = 0
+    for rep in range(1 if tier == "quick" else 6):
+        for qt in common.QTYPES:
+            for (kind, ord_) in (("ping", 1), ("ping", 3), ("data", 0), ("login", 0), ("fragprobe", 2)):
+                sp.append({"seed": seed * 100000 + 60000 + k, "sess": {"qtype": qt, "lazy": (k + rep) % 2}, "pkts": PKTS,
+                           "dur_ms": 4000, "hs_limit_ms": 200000,
+                           "plan": [{"kind": kind, "k": ord_ + j, "n": 2 + (j + k) % 3, "mode": "prepend", "what": "histx",
+                                     "probe_seed": k * 10 + j} for j in range(3)],
+                           "label": "chist/%s/%s%d/%d" % (qt, kind, ord_, rep)})
+                k += 1
+    results = vcheck.parallel(_hist_run, sp)
+    common.judge(chk, results, "TraceMonResidue", "TraceMonResidue.cfg", "residue",
+                 sigfn=lambda r, rej: "client-history:%s:%s" % (r["spec"]["sess"]["qtype"], r["spec"]["plan"][0]["kind"]), key="c12")
+    chk.cov["client_history_runs"] = len(results)
+    chk.cov["evaluations"] = chk.cov.get("evaluations", 0) + sum(r["stats"]["pairs"] for r in results)
+    return results
+
+
 def residue_family(chk, tier, seed):
     rng = random.Random(seed + 99)
     # 1 zeros, 4 what the previous datagram left, 2 0xA5, "5 <hex>" a repeated pattern of small numbers that a decoder
